@@ -76,7 +76,10 @@ MISSN = [lambda: {}, lambda: None, lambda: []]
 
 def make_cache(idx, hit, log, variant, expect):
     class Cache:
-        pass
+        # some cache objects are "empty containers" to Python (len 0): they are caches all the same
+        if variant % 5 == 0:
+            def __len__(self):
+                return 0
 
     c = Cache()
     box = {"log": log, "expect": expect}
